@@ -19,6 +19,7 @@ type FuncResult struct {
 	Assumptions []string
 	Paths       int
 	Restarts    int
+	exec        *Exec
 }
 
 func newExec(w *World, fn *ssa.Function, con *Contract) *Exec {
@@ -49,6 +50,7 @@ func verifyFunction(w *World, con *Contract) *FuncResult {
 		e.errs = append(e.errs, "loop havoc set did not stabilise")
 	}
 	res.Obls = e.obls
+	res.exec = e
 	res.Errs = e.errs
 	res.Paths = e.paths
 	for a := range e.assumptions {
@@ -84,6 +86,7 @@ func (e *Exec) runTop() {
 			e.note("pointer parameters are non-nil and point to pairwise disjoint objects")
 		}
 		f.env[p] = v
+		e.paramVals = append(e.paramVals, v)
 		if obj := p.Object(); obj != nil {
 			e.entryVars[obj] = v
 		}
@@ -129,11 +132,13 @@ func (e *Exec) topReturn(s *State, f *Frame, res []Value, in *ssa.Return) {
 	old := &oldCtx{s: e.entryState, env: e.entryVars}
 	rn := e.retOrdinal(in)
 	s.trace = append(s.trace, fmt.Sprintf("%s: return #%d", e.posStr(in.Pos()), rn))
+	from := len(e.obls)
 	for i, en := range e.con.Ensures {
 		var g *Term
 		e.withPol(1, func() { g = e.evalClauseEnvRes(s, nil, en, env, old, res) })
 		e.emit(s, fmt.Sprintf("post.%d", i+1), g, en.Pos)
 	}
+	e.batch(s, from)
 	if e.con.HasModifies {
 		e.frameCheck(s, env)
 	}
